@@ -410,6 +410,15 @@ def replay(cex):
         got2 = [int(x) for x in sk2.registers]
         return {"reproduced": bool(bad) or (bool(pre) and got2 != got), "how": how, "keys": [x.hex() for x in pre + [key]], "differs_at": bad[:4],
                 "observed": [got[i] for i in bad[:4]], "expected": [want[i] for i in bad[:4]], "order_dependent": bool(pre) and got2 != got}
+    if k == "hll-hash":
+        p, seed, key = cex["p"], cex["seed"], bytes.fromhex(cex["key_hex"])
+        sk = Hm.HyperLogLog(p, seed)
+        sk.add(key)
+        want = oracle_registers(p, seed, [key])
+        got = [int(x) for x in sk.registers]
+        bad = [i for i in range(len(want)) if got[i] != want[i]]
+        return {"reproduced": bool(bad), "how": "HyperLogLog(p, seed).add(key) vs registers computed with the python FastHash64 reference + leading-zero rule",
+                "key": cex["key_hex"], "differs_at": bad[:4], "observed": [got[i] for i in bad[:4]], "expected": [want[i] for i in bad[:4]]}
     if k == "hll-merge":
         m = cex["m"]
         p = m.bit_length() - 1
@@ -470,6 +479,26 @@ def replay(cex):
     return {"reproduced": False, "how": "unknown kind"}
 
 
+def ob_hash_ref(L, t_uf, t_pr):
+    """The hash the registers are indexed by is FastHash64 (property text): the real fasthash64 kernel, inlined, equals the
+    reference on every key of length L and every seed.  Same query ladder as C11; the counterexample is replayed at the
+    HyperLogLog level (add the key, compare the registers with the python FastHash64/clz oracle)."""
+    import c11
+    if not c11.FN:
+        c11._load()
+    r = c11.ob_equiv("fasthash64", L, t_uf, t_pr)
+    if r.get("status") == "cex":
+        c = r["cex"]
+        cex = {"kind": "hll-hash", "p": 7, "seed": c["seed"], "key_hex": c["key_hex"], "hash_level": c}
+        rp = replay(cex)
+        if not rp["reproduced"]:
+            cex["p"] = 16
+            rp = replay(cex)
+        r["cex"], r["replay"] = cex, rp
+        r["finding_key"] = "hll-hash:" + r.get("finding_key", "")
+    return r
+
+
 def validate_translator(seed, n):
     import numpy as np
     rnd = random.Random(seed + 5)
@@ -509,6 +538,10 @@ def main():
     t0 = time.time()
     tier = common.get_tier()
     H()
+    ok, pins = refs.check_pins()
+    if not ok:
+        print("reference model does not reproduce the SMHasher verification constants", pins, file=sys.stderr)
+        return 2
     tmo = 600000 if tier == "quick" else 1200000
     obs = [common.Ob("_n_leading_zeros64 == clz64 for all 2^64 inputs", ob_nlz, (tmo,), hard_s=tmo / 1000 + 60, bounds={"x": "all uint64"}),
            common.Ob("_add == documented register update (symbolic p in 7..16, hash, seed, registers)", ob_add_spec, (tmo,), hard_s=tmo / 1000 * 4 + 60, bounds={"p": "7..16 symbolic", "registers": "arbitrary (z3 Array)"}),
@@ -519,6 +552,11 @@ def main():
         obs.append(common.Ob(f"_merge == element-wise max, m={m} (+ algebra)", ob_merge_spec, (m, tmo), hard_s=tmo / 1000 * 6 + 60, bounds={"m": m}))
         if m <= 256:
             obs.append(common.Ob(f"merge/add commute on the kernels, m={m}", ob_merge_add_commute, (m, m.bit_length() - 1, tmo), hard_s=tmo / 1000 + 60, bounds={"m": m}))
+    hashL = list(range(0, 33)) if tier == "quick" else list(range(0, 130))
+    t_uf, t_pr = (240000, 300000) if tier == "quick" else (300000, 600000)
+    for L in hashL:
+        obs.append(common.Ob(f"fasthash64 (register index/rank source) == FastHash64 reference, key length {L}", ob_hash_ref, (L, t_uf, t_pr), hard_s=(t_uf + t_pr) / 1000 + 240,
+                             bounds={"key_len": L, "bytes": "symbolic", "seed": "symbolic, full width"}))
     from engine import wrun
     wobs, wmeta = wrun.obligations("c02", tier)
     obs += wobs
@@ -532,10 +570,10 @@ def main():
         return 2
     return common.finish(
         PID, tier, "model_checking", obs, results, t0=t0, funcs=funcs,
-        bounds={"nlz": "all 2^64 inputs", "_add": "p symbolic in 7..16, registers arbitrary, hash and seed all 2^64 values", "_merge": f"register files of {ms} cells, unrolled",
+        bounds={"nlz": "all 2^64 inputs", "_add": "p symbolic in 7..16, registers arbitrary, hash and seed all 2^64 values", "_merge": f"register files of {ms} cells, unrolled", "hash": f"fasthash64 == reference for every key length {hashL[0]}..{hashL[-1]}, all bytes, all seeds",
                 "histories": "no bounded unrolling needed: each lemma is an exact functional specification from an ARBITRARY register state, and every register state with values <= 65-p is reachable (FastHash64 on 8-byte keys is a bijection), so replays build the pre-state by real adds"},
         stubs=["fasthash64 -> arbitrary 64-bit value per (key identity), same value for the same key (exact: FastHash64 on 8-byte keys is a bijection, used by the replay)"],
-        assumptions=["Numba lowering preserves typed-IR semantics", "equal keys give equal hashes in every sketch and process (C11)",
+        assumptions=["Numba lowering preserves typed-IR semantics", "equal keys give equal hashes in every sketch and process; key lengths beyond the listed ones (C11)",
                      "HyperLogLog.add/update/add_ngram wrappers forward to the kernels ignoring multiplicities and query() evaluates the current registers: CrossHair conditions attached to this check (w_c12, w_c17); merge guard: C15"],
         outside=["_merge for m > 512 (uniform loop body)", "composition of the step lemmas into 'any history = fresh sketch fed each distinct key once' is an induction written in DESIGN.md, each lemma is a solver result",
                  "query() as a function of the registers (C17)"],
